@@ -415,8 +415,11 @@ Proof.
 Qed.
 
 (** * GraftTipOnEdge keeps the representation *)
-Theorem graft_new_tip_Rep h lt name e : Rep h lt -> alookup e (hedges h) <> None ->
-  exists h' lt', graft_new_tip name e h = HOk (hnextn h, hnexte h, S (hnexte h), S (hnextn h), h') /\ Rep h' lt'.
+Theorem graft_new_tip_Rep_strong h lt name e : Rep h lt -> alookup e (hedges h) <> None ->
+  exists h' p l nm cm l1 l2 ei ch,
+    In (p, LNode l nm cm (l1 ++ Some (e, ei, ch) :: l2)) (lsubs None lt) /\
+    graft_new_tip name e h = HOk (hnextn h, hnexte h, S (hnexte h), S (hnextn h), h') /\
+    Rep h' (lreplace l (LNode l nm cm (l1 ++ Some (e, halve ei, graft_wrap (hnextn h) (S (hnextn h)) (hnexte h) (S (hnexte h)) name ei ch) :: l2)) lt).
 Proof.
   intros R He. apply (rep_edges _ _ R) in He.
   destruct (in_leids_lsubs lt None e He) as (p & l & nm & cm & sl0 & ei & ch0 & Hsub & Hs).
@@ -457,7 +460,7 @@ Proof.
   assert (Le : e < hnexte h) by (apply (rep_fe _ _ R); exact He).
   destruct (graft_eval h name e l r ei hl hr (length l1) (length s1) E3 A1 B1 Nlr Ll Lr Le Il Ir ltac:(lia) ltac:(lia) ltac:(lia))
     as [h' [Ev D]].
-  exists h'. eexists. split; [exact Ev|].
+  exists h', p, l, nm, cm, l1, l2, ei, (LNode r nmr cmr (s1 ++ None :: s2)). split; [exact Hsub|]. split; [exact Ev|].
   set (sub := LNode l nm cm (l1 ++ Some (e, ei, LNode r nmr cmr (s1 ++ None :: s2)) :: l2)) in *.
   set (new := LNode l nm cm (l1 ++ Some (e, halve ei, graft_wrap (hnextn h) (S (hnextn h)) (hnexte h) (S (hnexte h)) name ei (LNode r nmr cmr (s1 ++ None :: s2))) :: l2)).
   pose proof (GF_in_new_n h name l nm cm l1 l2 e ei r nmr cmr s1 s2) as InN. fold new in InN. fold sub in InN.
@@ -565,6 +568,13 @@ Proof.
     destruct (Nat.eqb_spec y e) as [->|N1]; [lia|]. destruct (Nat.eqb_spec y (hnexte h)) as [->|N2]; [lia|].
     destruct (Nat.eqb_spec y (S (hnexte h))) as [->|N3]; [lia|].
     intros Hy. apply (rep_edges _ _ R), (rep_fe _ _ R) in Hy. lia.
+Qed.
+
+Theorem graft_new_tip_Rep h lt name e : Rep h lt -> alookup e (hedges h) <> None ->
+  exists h' lt', graft_new_tip name e h = HOk (hnextn h, hnexte h, S (hnexte h), S (hnextn h), h') /\ Rep h' lt'.
+Proof.
+  intros R He. destruct (graft_new_tip_Rep_strong h lt name e R He) as (h' & p & l & nm & cm & l1 & l2 & ei & ch & _ & Ev & R').
+  exists h'. eexists. split; [exact Ev|exact R'].
 Qed.
 
 Theorem graft_new_tip_good h name e : Good h -> alookup e (hedges h) <> None ->
